@@ -3,6 +3,8 @@
 # (UNDECIDED: an anchor was rewritten) is tolerated and listed.  usage: benigncheck.sh <dir with *.diff>
 WT=${VERIF_SCRATCH_WT:-/tmp/wt2}
 D=${1:-/verif/benign}
+# the scratch worktree is created on demand (remove it afterwards: git -C /repo worktree remove --force $WT)
+[ -d "$WT" ] || git -C /repo worktree add -q --detach "$WT" || exit 9
 cd $WT || exit 9
 bad=0
 for p in $D/*.diff; do
